@@ -29,7 +29,7 @@ def legs(tier):
 
 
 def bounds(tier):
-    return {"fault_arity": 1 if tier == "quick" else 2, "pairs_quick_scenarios": ["custom"]}
+    return {"fault_arity": 2}
 
 
 class Injected(Exception):
@@ -592,9 +592,7 @@ def run(ctx):
         sc.setup()
         H.install()
         try:
-            pairs_ok = arity >= 2
-            enumerate_faults(H, sc, max(arity, 2 if (ctx.tier == "quick" and sc.name == "custom") else arity), ctx,
-                             pairs_ok or (ctx.tier == "quick" and sc.name == "custom"))
+            enumerate_faults(H, sc, arity, ctx, True)
         finally:
             H.uninstall()
             sc.teardown()
